@@ -5,6 +5,8 @@
 
 mod build;
 mod docdump;
+#[cfg(feature = "autocomplete")]
+mod hooks;
 mod sexp;
 mod val;
 
@@ -26,6 +28,18 @@ fn run_case(line: &str, known_env: &mut BTreeSet<Vec<u8>>) -> (String, String) {
         Ok(s) => s,
         Err(e) => return ("?".into(), format!("BADCASE\t{}", e)),
     };
+    #[cfg(feature = "autocomplete")]
+    if let Some(l) = sx.headed("shell") {
+        return hooks::run_shell(l);
+    }
+    #[cfg(feature = "autocomplete")]
+    if let Some(l) = sx.headed("argmatch") {
+        return hooks::run_argmatch(l);
+    }
+    #[cfg(feature = "autocomplete")]
+    if let Some(l) = sx.headed("cmdmatch") {
+        return hooks::run_cmdmatch(l);
+    }
     let l = match sx.headed("case") {
         Some(l) if l.len() >= 2 => l,
         _ => return ("?".into(), "BADCASE\tnot a case".into()),
